@@ -222,6 +222,21 @@ let q_repr (k : int) (it : item) (args : string list) : string =
         done;
         "[" ^ Buffer.contents b ^ "]"
     | ["const"] -> if c.fr_const then "const" else "nonconst"
+    | ["prog"] ->
+        (* the emitted body as the deep-embedded program of Model/ReprProg.v, in the format harness/genprobe `structfr` prints
+           for the REAL expansion; `compiles` is the model's constant evaluation in the discriminant type *)
+        let tyname = function
+          | RU8 -> "u8" | RU16 -> "u16" | RU32 -> "u32" | RU64 -> "u64" | RUsize -> "usize"
+          | RI8 -> "i8" | RI16 -> "i16" | RI32 -> "i32" | RI64 -> "i64" | RIsize -> "isize" | ROther -> "other" in
+        (match gen_repr_prog it with
+         | Ok p ->
+           (match eval_chain p.rp_ty None p.rp_consts with
+            | None -> "prog-does-not-compile"
+            | Some _ ->
+              Printf.sprintf "ty=%s|constfn=%d|consts=[%s]|arms=[%s]|wild=none" (tyname p.rp_ty) (if p.rp_const_fn then 1 else 0)
+                (String.concat ";" (List.map (function CZero -> "zero" | CPrevPlus1 -> "prev" | COwn _ -> "own") p.rp_consts))
+                (String.concat ";" (List.map (fun a -> Printf.sprintf "c%d:v%d:%d" (i_nat a.pa_const) (i_nat a.pa_variant) (i_nat a.pa_nfields)) p.rp_arms)))
+         | _ -> "prog-generr")
     | _ -> failwith "bad repr query") code
 
 let q_discr (it : item) : string =
